@@ -339,3 +339,8 @@ def _points_to_mutable(t):
         pointee = core.rstrip("&*").replace("*const", "").strip()
         return not (pointee.startswith("const ") or pointee.endswith(" const"))
     return False
+
+
+def pre(chk):
+    from . import c19
+    c19.hlp_t(chk, ("clang++",))
